@@ -109,6 +109,12 @@ exec(open(os.path.join(HERE, 'gen_tail3.py')).read())
 # every VERIFIED contract is also checked for C01 (deterministic block execution): no node-local source is called, and
 # every verified callee carries the same clause (assumed / pure summaries are exempt)
 DET = '//@   deterministic[C01.no_node_local_source]'
+# CPC_DET=all: every verified contract; default: the contracts NewEVM (block execution's entry into x/cpc at EVM construction)
+# reaches — with the clause on all ~190 contracts the C01 check repeats the whole of C10 + C11 + C12 + C17 (> 25 min)
+DET_ALL = os.environ.get('CPC_DET', '') == 'all'
+DET_FUNCS = ['GetParams(', 'GetProtocolCpcVersion(', 'GetAllCustomPrecompiledContractsMeta(', 'GetAllCustomPrecompiledContracts(',
+             'func NewCustomPrecompiledContract(', 'func NewErc20CustomPrecompiledContract(', 'func NewCustomPrecompiledContractMethod(',
+             ') GetMetadata(', ') GetMethodExecutors(']
 def add_det(text):
     lines = text.split('\n')
     res = []
@@ -121,7 +127,7 @@ def add_det(text):
                 j += 1
             block = lines[i:j]
             body = '\n'.join(block)
-            if '//@   assumed' not in body and 'deterministic' not in body:
+            if '//@   assumed' not in body and 'deterministic' not in body and (DET_ALL or any(x in l for x in DET_FUNCS)):
                 res.append(l)
                 res.append(DET)
                 res.extend(block[1:])
